@@ -207,6 +207,8 @@ def check(prog: Program, rep):
     if _pa(prog, rep, "C02.R11", [prog.own_method(c, "is_valid_solution") for c in ['kFlowDecomp', 'kFlowDecompCycles']],
            "is_valid_solution() reports the model's own optimal solution invalid (5 - 7 = 254 for np.uint8)") < 2:
         raise _AE("is_valid_solution: the comparison of the flow values with the load of the routes was not found")
+    from rules.values import coefficients_converted as _cc
+    _cc(prog, rep, "C02.R11", ["kFlowDecomp", "AbstractWalkModelDiGraph"])
     # the flow-safe paths of kFlowDecomp / MinFlowDecomp are computed in the constructor: the readers of the scan must take every real flow value (C06.R7)
     from rules.c06 import readers_take_every_number as _rten
     from rules.common import RuleProxy as _RPr
